@@ -449,6 +449,15 @@ class ModuleVistor(NodeVisitor):
             if mod is not None and self._handleReExport(exports, orgname, asname, mod) is True:
                 continue
 
+            if (isinstance(mod, model.Package) 
+                    and isinstance(mod.contents.get(orgname), model.Module) 
+                    and orgname in mod._localNameToFullName_map):
+                # The __init__ module of the package binds the name of one of its 
+                # sub-modules to something else ('from .run import run'): 
+                # that is what the import gets, not the sub-module.
+                _localNameToFullName[asname] = mod._localNameToFullName_map[orgname]
+                continue
+
             _localNameToFullName[asname] = f'{modname}.{orgname}'
 
     def visit_Import(self, node: ast.Import) -> None:
